@@ -609,3 +609,70 @@ class PreviousSlotWasPublished(Kernel):
 
 
 KERNELS += [PreviousSlotWasPublished]
+
+
+class TargetLinkDeltaView(Kernel):
+    tu = TLTU
+    name = "target_link_ops.cpp:target_link_delta_view"
+    fn_name = "target_link_delta_view"
+    filter = "target_link_delta_view"
+    property_ids = ("C04", "C13")
+    scope = {"lo": 0, "hi": 3}
+    title = "target_link_delta_view: the delta seen through a link is the target's delta for exactly the asking cycle"
+
+    def setup(self, I):
+        ctx = I.ctx
+        self.T = z3.Int("evaluation_time")
+        self.link_null = z3.Bool("link_null")
+        g = Obj("ghost", "dg")
+        self.g = g
+        ctx.store[(g.oid, "asked")] = z3.IntVal(0)
+        ctx.store[(g.oid, "asked_t")] = z3.IntVal(-9)
+        ctx.store[(g.oid, "asked_on_target")] = z3.BoolVal(False)
+        k = self
+        link = Obj("TargetLinkStorage", "link")
+        trk = Obj("TSDataTracking", "tracking")
+        ctx.store[(trk.oid, "last_modified_time")] = z3.Int("link_last_modified_time")
+        ctx.store[(link.oid, "tracking")] = trk
+
+        def view(is_target):
+            v = Obj("TSDataView", "target" if is_target else "empty_view")
+
+            def dv(I_, a, n):
+                c = I_.ctx
+                c.write(Loc((g.oid, "asked")), c.store[(g.oid, "asked")] + 1)
+                c.write(Loc((g.oid, "asked_t")), c.rv(a[0]))
+                c.write(Loc((g.oid, "asked_on_target")), z3.BoolVal(is_target))
+                r = Obj("ValueView", "delta")
+                return r
+            v.m_delta_value = dv
+            return v
+        link.m_target_view = lambda I_, a, n: view(True)
+        self.link = link
+        self.mkview = view
+        return None, {"context": Ptr(Obj("TSInputTargetLinkContext", "state")), "memory": Ptr(Obj("memory", "memory")),
+                      "evaluation_time": self.T}
+
+    def function_handler(self, name, node, callee_node):
+        if name == "target_link_storage_at":
+            return lambda I, a, n: Ptr(self.link, self.link_null)
+        if name == "min":
+            return lambda I, a, n: z3.If(I.ctx.rv(a[0]) < I.ctx.rv(a[1]), I.ctx.rv(a[0]), I.ctx.rv(a[1]))
+        return Kernel.function_handler(self, name, node, callee_node)
+
+    def ctor_handler(self, qt, node):
+        if qt.endswith("TSDataView"):
+            return lambda I, args, n: (I.ctx.rv(args[0]) if args else self.mkview(False))
+        if qt.endswith("ValueView"):
+            return lambda I, args, n: (I.ctx.rv(args[0]) if args else Obj("ValueView", "empty"))
+        return Kernel.ctor_handler(self, qt, node)
+
+    def post(self, I, ret):
+        ctx = I.ctx
+        g = lambda nm: ctx.store[(self.g.oid, nm)]
+        ctx.oblige("ensures.the-target's-delta-is-asked-once,for-exactly-the-caller's-cycle[C04 a delta is readable only in the cycle "
+                   "that produced it; C13 reading through a link equals reading its target]",
+                   z3.And(g("asked") == 1, g("asked_t") == self.T, g("asked_on_target") == z3.Not(self.link_null)), kind="post-normal")
+
+
+KERNELS += [TargetLinkDeltaView]
